@@ -150,6 +150,10 @@ def run_shard(spec):
     texts = QUOTING + deep_programs(spec["tier"]) + [t for _, t in corpus.zoo() + corpus.repo_files()]
     if spec.get("big"):
         texts += [t for _, t in corpus.big_files()]
+    from ..gen import cases as _cases
+    for gi in range(36 if not spec.get("big") else 600):
+        # each shard adds its own model-generated programs (multi-declarator tagged definitions, _Alignas, _Pragma ...)
+        texts.append(_cases.build({"k": "tu", "seed": spec["rseed"] * 1000 + gi, "style": "single"}).text)
     mine = [t for i, t in enumerate(texts) if i % spec["nshards"] == spec["shard"]]
     small = [mutate.units(t) for t in texts if len(t) < 3000]
     hs = set()
